@@ -848,7 +848,8 @@ def check_c16_clean(e1: int, rel1: bool, rel2: bool, kind: int, resume: bool) ->
 
 
 # ---------------------------------------------------------------- C07 ----
-DMODES = ['no', 'yes', 'deps']
+DMODES = ['no', 'yes', 'deps', 'forced', 'forced-deps', 'forced-fallback', 'packages=lib', 'packages=^app$']
+MAY_FAIL = ('forced', 'forced-deps', 'forced-fallback')      # "fail if any download fails"
 
 
 def archive_history(e1, fresh2, d2, u2, e2, d3, fault, d4):
@@ -873,7 +874,9 @@ def archive_history(e1, fresh2, d2, u2, e2, d3, fault, d4):
         if e1 == 11:
             user_edit(w, st, False, st['srcedit'])
 
-        def verify(o, outs, what):
+        def verify(o, outs, what, mode='yes'):
+            if o != 'ok' and mode in MAY_FAIL:
+                return None           # a forced download of something the archive does not hold has to fail
             if o != 'ok':
                 return 'invocation-failed-' + o + what
             want = clean_build({k: v for k, v in st.items() if k != 'archive'}, False, current_user_txt(w))
@@ -903,10 +906,12 @@ def archive_history(e1, fresh2, d2, u2, e2, d3, fault, d4):
             return None
         o, outs, res = invoke(w, st, False, ['--download=' + DMODES[d2]] + (['--upload'] if u2 else []))
         ex2 = list(w.execs)
-        v = verify(o, outs, ' (2)')
+        v = verify(o, outs, ' (2)', DMODES[d2])
         if v:
             return False, v
-        if fresh2 and e1 == 0 and DMODES[d2] == 'yes':
+        if fresh2 and e1 == 0 and DMODES[d2] in ('yes', 'forced', 'forced-fallback'):
+            if o != 'ok':
+                return False, 'forced-download-failed-although-artifact-available'
             # identical recipes and sources at another location: everything comes from the archive
             if any(k.endswith('/build') or k.endswith('/dist') for k in ex2):
                 return False, 'build-step-executed-although-artifact-available'
@@ -920,7 +925,7 @@ def archive_history(e1, fresh2, d2, u2, e2, d3, fault, d4):
             o, outs, res = invoke(w, st, False, ['--download=' + DMODES[d4]])
         else:
             o, outs, res = invoke(w, st, False, ['--download=' + DMODES[d3]])
-        v = verify(o, outs, ' (3)')
+        v = verify(o, outs, ' (3)', DMODES[d4] if fault >= 0 else DMODES[d3])
         if v:
             return False, v
         return True, 'ok'
@@ -1132,9 +1137,30 @@ def check_c07(e1: int, fresh2: bool, d2: int, u2: bool, again: int, d3: int, fau
     return V.verdict(ok, fact)
 
 
+def check_c07_modes(e1: int, fresh2: bool, d2: int, again: bool, d3: int) -> bool:
+    """the forced / forced-deps / forced-fallback / packages=<regex> download modes: a forced invocation may fail when the
+    archive lacks an artifact; whatever completed equals the local build
+    pre: 0 <= e1 < EDITS
+    pre: 3 <= d2 <= 7 and 0 <= d3 <= 7
+    pre: e1 == V.SHARD[0]
+    pre: V.SHARD[1] or d3 == 1 or d3 == d2
+    post: _
+    """
+    V.enter()
+    e = V.SHARD[0]
+    a2 = V.concretize(d2, 8, 3)
+    a3 = V.concretize(d3, 8)
+    fr, ag = bool(fresh2), bool(again)
+    with V.fast():
+        ok, fact = archive_history(e, fr, a2, False, e if ag else 0, a3, -1, 0)
+    return V.verdict(ok, fact)
+
+
 def PLAN(tier):
     q = tier == 'quick'
     P = []
+    for e in range(EDITS):
+        P.append(dict(fn='check_c07_modes', shard=[e, not q], timeout=900 if q else 3000))
     for e in range(EDITS):
         P.append(dict(fn='check_c01', shard=[e, 2 if q else 3], timeout=500 if q else 3000))
     for rel in (False, True):
